@@ -384,6 +384,26 @@ def run(check, an: Analysis):
     check.instance('first', 'first:early-close-aborts-rest', ok, where_fn(first),
                    'GeneratorExit at the yield runs Scope.__aexit__(GeneratorExit) without '
                    'suspending (%d paths)' % len(closed), analysed=len(closed))
+    # once the k results are handed out, the rest is aborted *at that moment*: from the
+    # end of the result loop the scope is left without another suspension (a contestant
+    # that ends in such a gap would still report, or fail on a queue closed under it)
+    n_ends, gap = 0, None
+    for path in an.paths(Callee(first, None)):
+        ends = [i for i, e in enumerate(path.events) if e.kind == 'susp'
+                and e.data.get('how') == 'anext-end' and e.depth == 0
+                and e.data.get('exit') == 'normal']
+        exits = [i for i, e in enumerate(path.events) if e.kind == 'susp'
+                 and e.data.get('how') == 'aexit' and e.depth == 0]
+        if not ends or not exits or exits[-1] < ends[-1]:
+            continue
+        n_ends += 1
+        if any(is_suspension(e) for e in path.events[ends[-1] + 1:exits[-1]]):
+            gap = gap or (path, ends[-1])
+    check.instance('first', 'first:aborts-the-rest-when-the-results-are-out',
+                   gap is None and n_ends > 0, where_fn(first),
+                   'no suspension between the end of the result loop and the exit of the '
+                   'scope (%d paths)' % n_ends,
+                   path=rules.path_lines(*gap) if gap else None, analysed=n_ends)
     # the monitor
     ok, n_put = len(monitors) == 1, 0
     for monitor in monitors.values():
